@@ -74,6 +74,10 @@ def loops_around(fn, nid, R):
             lf = normal_for(fn, p)
             if lf and lf['start_cv'] == '0' and lf['op'] == '<':
                 out.append({'name': lf['name'], 'bound': R.render(lf['bound']), 'kind': 'for', 'node': p})
+            elif lf:
+                # a counted loop that demonstrably does not run over [0, bound)
+                out.append({'name': None, 'bound': None, 'kind': 'partial', 'node': p, 'partial_name': lf['name'],
+                            'why': 'starts at %s and runs while %s %s' % (lf['start_cv'] if lf['start_cv'] is not None else R.render(lf['start']), lf['op'], R.render(lf['bound']))})
             else:
                 out.append({'name': None, 'bound': None, 'kind': 'other', 'node': p})
         elif n['k'] == 'CXXForRangeStmt' and 'body' in n and (nid in fn.descendants(n['body']) or nid == n['body']):
